@@ -153,6 +153,24 @@ class Laws(Sub):
                 L, Rr = I.reshape(X.shape) @ X, X @ I.reshape(X.shape)
             close("identity_left", tu.npy(L), Xn, max(1.0, float(np.abs(Xn).max())), nm + " @ X vs X")
             close("identity_right", tu.npy(Rr), Xn, max(1.0, float(np.abs(Xn).max())), "X @ " + nm + " vs X")
+        # (b') identities have no memory: an identity element that was updated in place (add_, the documented in-place update - what
+        # an optimiser does to a parameter initialised with identity_X()) must not change what the constructors return next
+        # (a shared template / cache handed out by reference - seed C03e).  All spellings and sizes of the request.
+        alt = R.ALG_OF[lt]
+        with rec.sut("identity after an in-place update of an earlier identity"):
+            a_upd = pp.LieTensor(torch.tensor(np.resize(np.array(case["p"] + [0.3, -0.2, 0.1, 0.05]), R.ADIM[alt]), dtype=tu.TD[dtype]), ltype=tu.LT[alt])
+            for mk in (lambda: getattr(pp, "identity_" + lt)(dtype=tu.TD[dtype]), lambda: getattr(pp, "identity_" + lt)(1, dtype=tu.TD[dtype]),
+                       lambda: pp.identity_like(X, dtype=tu.TD[dtype])):
+                J = mk()
+                J.add_(a_upd.reshape(J.shape[:-1] + (R.ADIM[alt],)) if J.dim() > 1 else a_upd)
+            again = [("identity_%s()" % lt, getattr(pp, "identity_" + lt)(dtype=tu.TD[dtype])),
+                     ("identity_%s(1)" % lt, getattr(pp, "identity_" + lt)(1, dtype=tu.TD[dtype])),
+                     ("identity_%s(2)" % lt, getattr(pp, "identity_" + lt)(2, dtype=tu.TD[dtype])),
+                     ("identity_like", pp.identity_like(X, dtype=tu.TD[dtype])),
+                     ("identity_%s() [algebra]" % alt, getattr(pp, "identity_" + alt)(dtype=tu.TD[dtype]).Exp())]
+        for nm, I in again:
+            for row in tu.npy(I).reshape(-1, R.GDIM[lt]):
+                close("identity_after_update", _mat_of(lt, row), np.eye(4), 1.0, nm + " requested after an earlier identity was updated in place is not the identity")
         # (c) action
         p3 = np.array(case["p"]); p4 = np.array(case["p"] + [case["w"]])
         P3, P4 = tu.tens(case["p"], dtype), tu.tens(case["p"] + [case["w"]], dtype)
